@@ -98,8 +98,14 @@ def generate(rng, tier):
     calls = [gen_call(rng) for _ in range(rng.choice([2, 3, 4, 6]))]
     if rng.random() < 0.5:
         calls.append(dict(calls[rng.randrange(len(calls))]))  # an exact repetition
-    return {"layer_opts": layer_opts, "hist1d_layer": l1, "calls": calls, "res_dict": rng.choice([{"x": 6}, {"x": 4, "y": 5}, {"y": 3}]),
+    case = {"layer_opts": layer_opts, "hist1d_layer": l1, "calls": calls, "res_dict": rng.choice([{"x": 6}, {"x": 4, "y": 5}, {"y": 3}]),
             "seed": 0}
+    # option values that are set but falsy (0, 0.0): "set" must mean "is not None"
+    if rng.random() < 0.4:
+        case["layer_values"] = {"vmin": rng.choice([0, 0.0])}
+    if rng.random() < 0.2:
+        case["call_values"] = {"vmin": rng.choice([0, 0.0])}
+    return case
 
 
 def describe(case):
@@ -170,6 +176,7 @@ class Shared:
     def __init__(self, case):
         import osyris
 
+        self.case = case
         cells = build_mesh(MESH)
         self.cells = cells
         self.dg = mesh_datagroup(MESH, cells)
@@ -180,7 +187,7 @@ class Shared:
             kw = {}
             for o in OPTS:
                 if case["layer_opts"][k][o]:
-                    kw[o] = LAYER_VALUES[o]
+                    kw[o] = lvalue(case, o)
             self.layers.append(self.dg.layer(keys[k], **kw))
         self.scatter_layer = self.dg.layer("position", mode="scatter", s=2.0)
         self.res_dict = dict(case["res_dict"])
@@ -208,14 +215,23 @@ class Shared:
                 "plot_dict": self.plot_dict}
 
 
+def lvalue(case, o):
+    """layer-level value of option o (a case may ask for falsy-but-set values such as vmin=0)"""
+    return case.get("layer_values", {}).get(o, LAYER_VALUES[o])
+
+
+def cvalue(case, o):
+    return case.get("call_values", {}).get(o, CALL_VALUES[o])
+
+
 def effective(case, call, k):
     """effective option values of layer k in this call"""
     out = {}
     for o in OPTS:
         if case["layer_opts"][k][o]:
-            out[o] = LAYER_VALUES[o]
+            out[o] = lvalue(case, o)
         elif call["opts"][o]:
-            out[o] = CALL_VALUES[o]
+            out[o] = cvalue(case, o)
         else:
             out[o] = None
     return out
@@ -223,14 +239,13 @@ def effective(case, call, k):
 
 def call_kwargs(call, S, which="real", eff=None):
     """kwargs of the real call, or of the reference call for one layer (eff given)."""
-    import osyris
-
     kw = {}
-    src = CALL_VALUES if eff is None else eff
     for o in OPTS:
-        on = call["opts"][o] if eff is None else (eff[o] is not None)
-        if on:
-            kw[o] = src[o]
+        if eff is None:
+            if call["opts"][o]:
+                kw[o] = cvalue(S.case, o)
+        elif eff[o] is not None:
+            kw[o] = eff[o]
     return kw
 
 
